@@ -208,6 +208,11 @@ def suite_ext_new(rng, tier):
     for i in (0, 0x42, 0xFF):
         for ln in (11, 100, 5000):
             s.ext_new(i, bs_gen(i, ln))
+    # data lengths around the widths a length could be squeezed into (u8, u16), for one id of every H-LEN class,
+    # the mandatory range, and ids that are not extension ids
+    for i in (0x00, 0x42, 0xFF, 0x100, 0x1FF, 0x200, 0x300, 0x400, 0x500, 0x5FF, 0x600, 0x0800, 0xFFFF):
+        for ln in (12, 16, 254, 255, 256, 257, 258, 260, 262, 264, 510, 512, 514, 65534, 65535, 65536, 65538, 65544):
+            s.ext_new(i, bs_gen(i + ln, ln))
     return [s]
 
 
@@ -402,7 +407,8 @@ def suite_transfer(rng, tier, n_sessions=None, with_ext=False):
             fid = rng.randrange(256)
             label = rng.choice([LBL_A6, LBL_A6, LBL_B6, LBL_A3, LBL_B3, LBL_BC, LBL_RU] + ([rng.choice(TRICKY_LABELS)] * 2))
             fid = rng.choice([fid, fid, 0, 255, slots, slots - 1 if slots else 0]) % 256
-            pt = rng.choice([0x0800, 0x0800, 0x86DD, 0x0600, 0x0601, 0xFFFF, 0xFFFE])
+            pt = rng.choice([0x0800, 0x0800, 0x86DD, 0x0600, 0x0601, 0xFFFF, 0xFFFE, rng.randrange(0x0600, 0x10000), rng.randrange(0x0600, 0x10000),
+                             rng.choice([0x0700, 0x0A00, 0x1000, 0x8100, 0x8847, 0x1234, 0xFF00, 0x06FF])])
             exts = None
             if with_ext:
                 exts, pt = pick_exts(rng, pt)
@@ -475,9 +481,14 @@ def suite_transfer(rng, tier, n_sessions=None, with_ext=False):
 
 def pick_exts(rng, pt):
     n = rng.randrange(1, 5)
+    if rng.random() < 0.12:
+        n = rng.choice([5, 8, 9, 16, 17, 32, 33, 40])      # long chains (2-byte extensions mostly)
     exts = []
     for _ in range(n):
         r = rng.random()
+        if n > 4 and r < 0.8:
+            exts.append((0x0100 | rng.randrange(256), b""))
+            continue
         if r < 0.6:
             h = rng.randrange(1, 6)
             i = (h << 8) | rng.randrange(256)
